@@ -19,17 +19,18 @@ STATUSES = ["clean", "modified-unstaged", "modified-staged", "both", "added", "d
 def make_status(prj, kind, target):
     """bring `target` ('a.txt' = pattern file, 'other.txt' = unrelated tracked file) into the given state; returns the path that carries the change"""
     p = prj.path(target)
+    c = "# " if target.endswith(".toml") else ""     # an edit of the config file must leave it readable
     if kind == "clean":
         return target
     if kind == "modified-unstaged":
-        open(p, "a").write("local edit\n")
+        open(p, "a").write(c + "local edit\n")
     elif kind == "modified-staged":
-        open(p, "a").write("staged edit\n")
+        open(p, "a").write(c + "staged edit\n")
         prj.git("add", target)
     elif kind == "both":
-        open(p, "a").write("staged edit\n")
+        open(p, "a").write(c + "staged edit\n")
         prj.git("add", target)
-        open(p, "a").write("second edit\n")
+        open(p, "a").write(c + "second edit\n")
     elif kind == "deleted":
         os.unlink(p)
     elif kind == "renamed":
@@ -60,6 +61,8 @@ def run(rep, tier, seed, model_ok=True, effort=1):
     # git prints root-relative paths)
     combos = [(k, t, ad, "a.txt") for k in STATUSES for t in ("a.txt", "other.txt") for ad in (False, True)]
     combos += [(k, "a.txt", ad, "./a.txt") for k in STATUSES for ad in (False, True)]
+    # the config file itself always carries a pattern (its current_version line)
+    combos += [(k, "bumpver.toml", ad, "a.txt") for k in ("modified-unstaged", "modified-staged", "both") for ad in (False, True)]
     extra = [("modified-unstaged", "other.txt", True, "untracked-second"), ("untracked", "other.txt", False, "modified-second")]
     for kind, target, allow_dirty, spelling in combos:
         prj = project.TempProject("MAJOR.MINOR.PATCH", "1.2.3", files={spelling: ["ver = {version}"]}, contents={"other.txt": "unrelated\n"},
@@ -75,7 +78,7 @@ def run(rep, tier, seed, model_ok=True, effort=1):
             commits_after = len(prj.git("log", "--oneline").splitlines())
             rep.case((kind, target, allow_dirty, spelling), nontrivial=kind != "clean")
             rep.count("status=" + kind)
-            pattern_file = target == "a.txt"
+            pattern_file = target in ("a.txt", "bumpver.toml")
             dirty = kind != "clean" and not (kind == "untracked" and not pattern_file)
             expect_abort = (dirty and not allow_dirty) or (kind != "clean" and pattern_file)
             if kind == "deleted" and pattern_file:
